@@ -193,45 +193,42 @@ impl Prop for C10T {
                 Some(Some(Ok(()))) => return v("returned-ok", format!("process returned Ok(())\n    {}", brief(&t))),
                 other => return v("ended-without-transport-error", format!("{other:?}\n    {}", brief(&t))),
             }
-            // expected stream: exact segments for fitting messages, a gap where a message overflowed
-            let mut segs: Vec<Vec<u8>> = vec![Vec::new()];
-            for i in 0..nmsg {
+            // The write calls, in order, must be: for a message that fits, writes that add up
+            // to exactly its answers (one write, or one per piece when the message holds
+            // newlines inside payloads); for a message whose answers overflow, any number of
+            // writes of its own; nothing else.  Bytes of an overflowing message may therefore
+            // not be glued in front of a later answer.
+            let writes: Vec<&Vec<u8>> = t.events.iter().filter_map(|e| if let Ev::TWrite { data, ok: true } = e { Some(data) } else { None }).collect();
+            fn fits(i: usize, j: usize, over: &[bool], resp: &[Vec<u8>], writes: &[&Vec<u8>]) -> bool {
+                if i == over.len() {
+                    return j == writes.len();
+                }
                 if over[i] {
-                    segs.push(Vec::new());
-                } else {
-                    segs.last_mut().unwrap().extend_from_slice(&resp[i]);
+                    return (j..=writes.len()).any(|k| fits(i + 1, k, over, resp, writes));
                 }
+                if resp[i].is_empty() {
+                    return fits(i + 1, j, over, resp, writes);
+                }
+                let mut acc: Vec<u8> = Vec::new();
+                for k in j..writes.len() {
+                    acc.extend_from_slice(writes[k]);
+                    if acc.len() > resp[i].len() {
+                        break;
+                    }
+                    if acc == resp[i] && fits(i + 1, k + 1, over, resp, writes) {
+                        return true;
+                    }
+                }
+                false
             }
+            let ok = fits(0, 0, &over, &resp, &writes);
             let got = t.responses();
-            let mut pos = 0usize;
-            let mut ok = true;
-            let last = segs.len() - 1;
-            for (i, sg) in segs.iter().enumerate() {
-                if i == 0 {
-                    if got.len() >= sg.len() && got[..sg.len()] == sg[..] {
-                        pos = sg.len();
-                    } else {
-                        ok = false;
-                    }
-                } else if i == last {
-                    if !(got.len() >= pos + sg.len() && got[got.len() - sg.len()..] == sg[..]) {
-                        ok = false;
-                    }
-                } else if !sg.is_empty() {
-                    match got[pos..].windows(sg.len()).position(|w| w == &sg[..]) {
-                        Some(k) => pos += k + sg.len(),
-                        None => ok = false,
-                    }
-                }
-                if !ok {
-                    break;
-                }
-            }
+            let segs: Vec<String> = (0..nmsg).map(|i| if over[i] { "<any>".to_string() } else { crate::scenario::show(&resp[i]) }).collect();
             st.bump("reach:history_with_answer_larger_than_N");
             if !ok {
                 return v(
                     "content",
-                    format!("a message whose answers do not fit N={} bytes disturbed the answers of other messages: written [{}], expected (with a gap only at the overflowing message) {:?}\n    {}", sc.n, crate::scenario::show(&got), segs.iter().map(|x| crate::scenario::show(x)).collect::<Vec<_>>(), brief(&t)),
+                    format!("a message whose answers do not fit N={} bytes disturbed the answers of other messages: written [{}], expected per message {:?}\n    {}", sc.n, crate::scenario::show(&got), segs, brief(&t)),
                 );
             }
             return Verdict::Held { nontrivial: false, sig: scenario_sig(sc) };
